@@ -879,7 +879,117 @@ LEMMAS = [Lemma("ramp", lemma_ramp, uses=["fourier_translation_operator"]),
           Lemma("gather-scatter-flattening", lemma_flatten, uses=["sum_patches_base", "ObjectBase._get_obj_patches"]),
           Lemma("fftshift-index-maps", lemma_shift_indices, uses=["DetectorPixelated.forward", "Ptychography.fourier_projection"]),
           Lemma("projection-pointwise", lemma_projection_pointwise, uses=["Ptychography.fourier_projection"])]
-BOUNDED = []
-TRUSTED = []
-ASSUMPTIONS = []
-EXPLANATION = ""
+# ------------------------------------------------------------------------------------------------ run-time oracles (replay, bounded stand-ins)
+
+
+def _cap(n, hi=9):
+    n = int(n) if n is not None else 4
+    if n < 1:
+        n = 1
+    if n > hi:
+        n = hi if n % 2 == hi % 2 else hi - 1
+    return n
+
+
+def conc_roi(ev, a="nr", b="nc"):
+    return (_cap(ev(a, 4)), _cap(ev(b, 4)))
+
+
+def conc_ramp(ev):
+    nr, nc = conc_roi(ev)
+    return dict(nr=nr, nc=nc, integer=False, extra=(), expand_dim=True, seed=1)
+
+
+def conc_shift(ev):
+    nr, nc = conc_roi(ev)
+    return dict(nr=nr, nc=nc, extra=(), real_input=bool(ev("array_is_real", False)), seed=1)
+
+
+def conc_projection(ev):
+    return dict(M=1 if ev("single_mode", True) else 2, B=1, roi=conc_roi(ev), seed=1)
+
+
+def conc_detector(ev):
+    return dict(M=_cap(ev("M", 2), 4), B=1, roi=conc_roi(ev), seed=1)
+
+
+def conc_ea(ev):
+    return dict(M=1 if ev("single_mode", True) else 2, B=1, roi=conc_roi(ev), seed=1)
+
+
+def conc_energy(ev):
+    return dict(S=_cap(ev("S", 2), 5), M=_cap(ev("M", 1), 3), B=1, roi=conc_roi(ev), seed=1)
+
+
+def conc_patches(ev):
+    roi = (_cap(ev("nr", 2), 4), _cap(ev("nc", 2), 4))
+    return dict(B=_cap(ev("B", 2), 4), roi=roi, obj=(roi[0] + 2, roi[1] + 1), S=1, seed=1)
+
+
+def conc_prop(ev):
+    return dict(nr=_cap(ev("Sr", ev("nr", 4))), nc=_cap(ev("Sc", ev("nc", 4))), tilt=(1.5, -2.0), seed=1)
+
+
+for _c, _rt, _fam, _conc in ((C_FTO, RT.rt_ramp, RT.fam_ramp, conc_ramp), (C_FSE, RT.rt_shift, RT.fam_shift, conc_shift),
+                             (C_WL, RT.rt_propagator, RT.fam_propagator, conc_prop), (C_CPA, RT.rt_propagator, RT.fam_propagator, conc_prop),
+                             (C_PA1, RT.rt_propagator, RT.fam_propagator, conc_prop), (C_PA2, RT.rt_propagator, RT.fam_propagator, conc_prop),
+                             (C_SPB, RT.rt_patches, RT.fam_patches, conc_patches), (C_SP, RT.rt_patches, RT.fam_patches, conc_patches),
+                             (C_GOP, RT.rt_patches, RT.fam_patches, conc_patches), (C_OP, RT.rt_energy, RT.fam_energy, conc_energy),
+                             (C_DET, RT.rt_detector, RT.fam_detector, conc_detector), (C_EA, RT.rt_estimate_amplitudes, RT.fam_estimate_amplitudes, conc_ea),
+                             (C_FP, RT.rt_projection, RT.fam_projection, conc_projection), (C_GS, RT.rt_projection, RT.fam_projection, conc_projection)):
+    _c.rt, _c.rt_family, _c.concretize = _rt, _fam, _conc
+
+BOUNDED = [
+    Bounded.from_rt("phase ramps: theorem form, unit modulus, additivity, inverse (float64)", RT.rt_ramp, RT.fam_ramp,
+                    "ROIs 1x1..7x8 (..16x9 thorough) odd/even/non-square, 3 random + integer positions, shapes with 0..2 extra axes, torch+numpy"),
+    Bounded.from_rt("Fourier shift of arrays: energy, additivity, inverse, integer shift = roll", RT.rt_shift, RT.fam_shift,
+                    "complex arrays 1x3..7x8 with 0/1 batch axes, torch+numpy; real arrays 3x3,4x5,5x5 (class real-input)", klass=RT.klass_shift),
+    Bounded.from_rt("propagators and propagation: unit modulus, theorem form, additive in dz, inverse, energy", RT.rt_propagator, RT.fam_propagator,
+                    "ROIs 1x2..7x8, 4 tilts, 2 energies / samplings, both _propagate_array copies"),
+    Bounded.from_rt("gather / scatter: scatter spec, gather spec, <gather(o),p> = <o,scatter(p)>", RT.rt_patches, RT.fam_patches,
+                    "1..5 patches of 1x1..5x2 in grids up to 7x6, wrap-around and repeated positions, real and complex, int32/int64 indices"),
+    Bounded.from_rt("pure-phase multislice: summed pattern intensity = probe intensity", RT.rt_energy, RT.fam_energy,
+                    "1,2,3,5 slices x 1..3 modes x 5 ROIs (odd/even/non-square), with and without tilt, end to end through the real gather, propagators, overlap_projection and detector"),
+    Bounded.from_rt("detector: Parseval (non-square ROIs), mode sum, DC position", RT.rt_detector, RT.fam_detector, "1,2,4 modes x 10 ROIs 1x1..3x8"),
+    Bounded.from_rt("single-mode Fourier projection: exact amplitudes (detector convention), idempotent, gradient_step", RT.rt_projection, RT.fam_projection_single,
+                    "8 ROIs (10 thorough), measured zeros, zero Fourier coefficients, tiny amplitudes", klass=RT.klass_projection),
+    Bounded.from_rt("mixed-state Fourier projection: exact amplitudes, idempotent (eps term; stand-in, not proved)", RT.rt_projection, RT.fam_projection_mixed,
+                    "2 and 3 modes x 8 ROIs (10 thorough), measured zeros, zero Fourier coefficients, tiny amplitudes", klass=RT.klass_projection),
+    Bounded.from_rt("estimate_amplitudes = sqrt(sum_m |F_ortho|^2), centring", RT.rt_estimate_amplitudes, RT.fam_estimate_amplitudes, "1 and 3 modes x 3 ROIs",
+                    klass=lambda inp, res: "+".join(res.get("kinds") or ["other"]) if "other" not in (res.get("kinds") or ["other"]) else "other"),
+]
+
+TRUSTED = [
+    "A4: cos/sin/exp/sqrt/atan2 uninterpreted with the ground lemma instances of pyvc/reals.py; extra schemas of pyvc/lib/c16_models.trig_schema "
+    "(angle addition, negation, zero - side condition kept as antecedent) and 2-pi periodicity instances in the integer-shift lemma; tan uninterpreted (no facts)",
+    "complex numbers as (re, im) pairs: exp(i t) = (cos t, sin t), |z|^2 = re^2 + im^2, arg z = atan2(im, re) (pyvc/lib/c16_models.Cx)",
+    "A5 DFT axioms exactly as stated in pyvc/lib/c16_models.py: Parseval per 2-d slice in the form matching `norm` (instantiated at the generic batch "
+    "indices of each contract), Parseval summed over the leading mode axis, ifft2(fft2 x) = x and fft2(ifft2 G) = G for equal norm, fft2 is a function "
+    "of its argument; fftshift/ifftshift index maps i -> (i -+ n//2) mod n and preservation of the sum over the shifted axes. The FFT itself is outside reach.",
+    "A5 consequences used at property level but not derived here: shift theorem (a spectrum multiplied by exp(-2 pi i (k_r p/nr + k_c q/nc)) is the circular "
+    "roll by (p,q)); congruence of ifft2 (equal spectra give equal arrays) - these turn the pointwise spectral identities (lemmas `ramp`, `propagator`, "
+    "contract clauses `G=fft2(array)*...`) into 'integer shift = roll', 'compose additively', 'propagate by dz then -dz = identity'",
+    "finite sums: Sigma2(nr,nc,summand) with syntactic congruence; sum-extensionality instances (equal summands => equal sums) added by "
+    "c16_models.sum_ext_hint; finite regrouping (exchange of two finite sums, Kronecker delta) linking scatter spec to adjointness "
+    "<gather(o),p> = <o,scatter(p)> and the per-mode energies of overlap_projection to the detector's mode-summed total - not derived, covered by bounded stand-ins",
+    "A6 torch/numpy contracts of pyvc/lib/c16_models.py: index_add_ (accumulating scatter, IndexError out of range), advanced-index gather, C-order reshape, "
+    "dtype casts (complex -> real dtype drops the imaginary part), boolean-mask assignment of inf and x/inf = 0, fftfreq, stack, prod; numpy arrays / torch tensors "
+    "share one index-function semantics (array_funcs' dispatch is interpreted for both)",
+    "generic-index reasoning: clauses proved at arbitrary (fresh, in-range) indices hold for all indices; contracts used at call sites expose their per-slice "
+    "energy clauses at the caller's registered generic batch indices only",
+    "pyvc engine, z3, cvc5",
+]
+ASSUMPTIONS = [
+    "A1 floats are reals: float32 frequency vectors (kr, kc are cast to float32 in fourier_translation_operator), complex64 propagators and rounding are not modelled; "
+    "the float64 bounded stand-ins use tolerances 2e-6 (ramp path) / 1e-9",
+    "mixed-state (num_probes > 1) Fourier projection: exactness obligations are generated for 2 modes and FAIL (eps term, known findings); idempotence and >2 modes only bounded",
+    "estimate_amplitudes / fourier_projection are verified for 1 and 2 probe modes (enumerated); every other contract is for symbolic mode, batch, slice counts and ROI sizes",
+    "fourier_shift_expand is verified for arrays with 0 or 1 batch axes and expand_dim=True (torch and numpy); real input arrays are outside the property's quantifier and hit a known finding",
+    "overlap_projection: proved clauses are shapes, propagated_probes[0] = input and the energy invariant; the slice recursion itself "
+    "(propagated_probes[s] = propagate(obj[s-1]*propagated_probes[s-1])) is covered by the bounded stand-in only",
+    "adjointness of scatter/gather, 'integer shift = roll', the detector/multislice energy chain across functions rest on the trusted finite-sum / DFT steps listed in TRUSTED",
+]
+EXPLANATION = ("VCs from the real source of 14 functions (phase ramps, propagators, scatter/gather, propagation, multislice loop with an energy loop invariant, "
+               "detector, amplitude estimation, Fourier projection incl. a second symbolic run for idempotence) over complex numbers as real pairs, "
+               "trusted DFT axioms (Parseval / inverse / shift maps) and finite-sum terms; property lemmas for additivity, inverse, integer-shift kernel, "
+               "flattening and fftshift index maps; float64 run-time oracles as replay and bounded stand-ins")
